@@ -29,6 +29,7 @@ type Obligation struct {
 	Time   float64 `json:"time_s"`
 	Model  string  `json:"model,omitempty"`
 	Canary bool    `json:"canary,omitempty"` // vacuity probe: expected to be sat
+	Late   bool    `json:"-"` // reserve vacuity probe: only tried when the sampled probes were all unsat
 	Path   string  `json:"path,omitempty"`
 	inputs []inputLeaf
 }
